@@ -149,6 +149,8 @@ def run(ctx, bt):
         check_run(ctx, bt, spec)
     run_engine_protocol(ctx, bt, ctx.scale(60, 600), [], FOOT_FIELDS, None, spec_kwargs={"fi_tree": False},
                         spec_mutator=levered_hold, corr_name="step[C16]")
+    from ..runs_run import run_steps_protocol
+    run_steps_protocol(ctx, bt, ctx.scale(25, 500), FOOT_FIELDS, "run-steps[C16]:leveraged-programs", make_spec=gen_spec)
 
 
 def search(ctx, bt):
